@@ -568,6 +568,14 @@ Definition check (c : sexp) : sexp :=
                                            | None => true
                                            end) defs) in
                 if negb bridge_ok then v_mismatch "c04-validator-model-disagrees" [] else
+                (* ... and C04's whole ValidateDocument model, run on the translated request, gives
+                   the verdict of C05's static_ok *)
+                let dname := if site_field then None
+                             else Some (if String.eqb site "skip" then [115; 107; 105; 112]%N
+                                        else if String.eqb site "include" then [105; 110; 99; 108; 117; 100; 101]%N
+                                        else [102; 108; 116]%N) in
+                if bridgeable E && negb (Bool.eqb (c04_document_accepts E site_field dname argdefs defs args) st)
+                then v_mismatch "c04-document-verdict-disagrees" [of_bool st] else
                 match oracle E site_field argdefs args raw o ref_vv ref_am with
                 | Some v => v
                 | None =>
